@@ -167,7 +167,9 @@ pub fn scenario_body(sc: Scenario, obs: SharedObs) {
         }
     }
     if sc.probe_after {
-        let ok = probe(&srv.addr, 99);
+        // six fresh connections one after the other: with four resident workers taking turns
+        // every worker that served the scripted connections serves a probe as well
+        let ok = (0..6).all(|k| probe(&srv.addr, 9000 + k));
         obs.lock().unwrap().probe_ok = Some(ok);
     }
     // orderly end: the clients finish sending (an application thread may still be
@@ -201,6 +203,11 @@ pub fn scenario_body(sc: Scenario, obs: SharedObs) {
     let addr = srv.addr.clone();
     drop(srv);
     ctl::settle();
+    if addr.is_listening() {
+        // 'within a short bounded time': one virtual second, watched passively
+        ctl::sleep(Duration::from_millis(1000));
+        ctl::settle();
+    }
     let refused = connect(&addr, 98, &ConnSpec::default()).is_err();
     obs.lock().unwrap().refused_after_drop = Some(refused);
     if sc.idle_after {
